@@ -48,6 +48,7 @@ type tcpConnSpec struct {
 	N          int      `json:"n,omitempty"`
 	Fin        bool     `json:"fin"`
 	Validate   bool     `json:"validate,omitempty"`
+	TFailAfter int      `json:"target_write_fails_after,omitempty"` // the connection to the target accepts this many bytes, then every write fails (monitor-only cases)
 	ConnectOK  bool     `json:"connect_ok"`
 	TOut       [2]int   `json:"tout"`
 	TFirst     bool     `json:"target_first,omitempty"`
@@ -90,26 +91,27 @@ func (m *recTCPMetrics) AddProbe(status, drainResult string, clientProxyBytes in
 }
 
 type tcpObs struct {
-	Status      string               `json:"status"`
-	Events      []recEvent           `json:"-"`
-	Auth        []string             `json:"auth"`
-	Probe       *recEvent            `json:"probe,omitempty"`
-	Counters    metrics.ProxyMetrics `json:"counters"`
-	TargetHit   bool                 `json:"target_hit"`
-	TargetGot   []byte               `json:"-"`
-	TargetLen   int                  `json:"target_len"`
-	ClientPlain []byte               `json:"-"`
-	ClientLen   int                  `json:"client_len"`
-	RawSent     int                  `json:"raw_sent"`
-	RawRecv     int                  `json:"raw_recv"`
-	Close       int                  `json:"close"`
-	CloseMs     int64                `json:"close_ms"`
-	FirstDownMs int64                `json:"first_downstream_byte_ms"`
-	SinkHit     string               `json:"sink_hit,omitempty"` // a non-public address the name resolves to received a connection
-	Reset       bool                 `json:"reset"`
-	Panic       string               `json:"panic,omitempty"`
-	HandlerDone bool                 `json:"handler_done"`
-	Port        int                  `json:"port"`
+	Status         string               `json:"status"`
+	Events         []recEvent           `json:"-"`
+	Auth           []string             `json:"auth"`
+	Probe          *recEvent            `json:"probe,omitempty"`
+	Counters       metrics.ProxyMetrics `json:"counters"`
+	TargetHit      bool                 `json:"target_hit"`
+	TargetGot      []byte               `json:"-"`
+	TargetLen      int                  `json:"target_len"`
+	ClientPlain    []byte               `json:"-"`
+	ClientLen      int                  `json:"client_len"`
+	RawSent        int                  `json:"raw_sent"`
+	RawRecv        int                  `json:"raw_recv"`
+	Close          int                  `json:"close"`
+	CloseMs        int64                `json:"close_ms"`
+	FirstDownMs    int64                `json:"first_downstream_byte_ms"`
+	TargetAccepted int64                `json:"target_accepted,omitempty"` // TFailAfter cases: bytes the target connection accepted before failing
+	SinkHit        string               `json:"sink_hit,omitempty"`        // a non-public address the name resolves to received a connection
+	Reset          bool                 `json:"reset"`
+	Panic          string               `json:"panic,omitempty"`
+	HandlerDone    bool                 `json:"handler_done"`
+	Port           int                  `json:"port"`
 }
 
 // DNS kinds (fake resolver, fakedns.go): 30 a name with a public A and the loopback AAAA,
@@ -396,6 +398,16 @@ func runTCPConn(auth service.StreamAuthenticateFunc, sp *tcpConnSpec) (ob tcpObs
 	if !sp.Validate {
 		handler.SetTargetDialer(&transport.TCPDialer{})
 	}
+	var accepted int64 // bytes the failing target connection accepted
+	if sp.TFailAfter > 0 {
+		handler.SetTargetDialer(transport.FuncStreamDialer(func(ctx context.Context, addr string) (transport.StreamConn, error) {
+			c, err := (&transport.TCPDialer{}).DialStream(ctx, addr)
+			if err != nil {
+				return nil, err
+			}
+			return &failingConn{StreamConn: c, left: sp.TFailAfter, accepted: &accepted}, nil
+		}))
+	}
 	rec := &recTCPMetrics{}
 	handlerDone := make(chan string, 1)
 	go func() {
@@ -529,6 +541,7 @@ func runTCPConn(auth service.StreamAuthenticateFunc, sp *tcpConnSpec) (ob tcpObs
 			}
 		}
 	}
+	ob.TargetAccepted = atomic.LoadInt64(&accepted)
 	ob.CloseMs = closedAt.Milliseconds()
 	ob.FirstDownMs = atomic.LoadInt64(&firstDown)
 	if rerr != nil && (errors.Is(rerr, syscall.ECONNRESET) || strings.Contains(rerr.Error(), "reset")) {
@@ -674,4 +687,30 @@ func boundNotListening(v6 bool) (fd int, port int, err error) {
 		port = a.Port
 	}
 	return
+}
+
+// failingConn: a target connection whose writes start failing after a number of bytes (a
+// deterministic stand-in for a target that goes away mid-upload). It deliberately has no
+// ReadFrom, so every byte passes through Write.
+type failingConn struct {
+	transport.StreamConn
+	left     int
+	accepted *int64
+}
+
+func (f *failingConn) Write(b []byte) (int, error) {
+	if f.left <= 0 {
+		return 0, syscall.EPIPE
+	}
+	n := len(b)
+	if n > f.left {
+		n = f.left
+	}
+	m, err := f.StreamConn.Write(b[:n])
+	f.left -= m
+	atomic.AddInt64(f.accepted, int64(m))
+	if err == nil && m < len(b) {
+		err = syscall.EPIPE
+	}
+	return m, err
 }
